@@ -39,13 +39,17 @@ def strat_rdr(draw, tier):
             "target": draw(target_strategy(len(tab["entries"])))}
 
 
+FIXED_KEYSPACE = {"bits": [0, 1, 2, 3], "const_mask": 0xfffffff0,
+                  "const_key": 0}
+
+
 @st.composite
-def strat_oc(draw, tier):
+def strat_oc(draw, tier, ks=None):
     big = tier == "thorough"
     tab = draw(gt.table(9 if big else 6, 48 if big else 20,
                         kind=draw(st.sampled_from(["orthogonal",
                                                    "generality",
-                                                   "generality"]))))
+                                                   "generality"])), ks=ks))
     return {"table": tab, "fn": draw(st.sampled_from(["oc", "oc_raw"])),
             "target": draw(target_strategy(len(tab["entries"])))}
 
@@ -55,16 +59,64 @@ def strat_chain(draw, tier):
     big = tier == "thorough"
     nchips = draw(st.integers(1, 3))
     tabs = []
+    # all chips of one machine use the same key format: the tables share one
+    # key space (so that anything remembered from one chip's table can meet
+    # the next chip's)
+    ks = draw(gt.keyspace(8 if big else 5))
     for _ in range(nchips):
         tabs.append(draw(gt.table(8 if big else 5, 30 if big else 12,
                                   kind=draw(st.sampled_from(
-                                      ["orthogonal", "generality"])))))
+                                      ["orthogonal", "generality"])),
+                                  ks=ks if draw(st.integers(0, 3)) else
+                                  None)))
     methods = draw(st.sampled_from(METHOD_SETS))
     style = draw(st.sampled_from(["table", "tables-int", "tables-dict",
                                   "tables-none"]))
     targets = [draw(target_strategy(len(t["entries"]))) for t in tabs]
     return {"tables": tabs, "methods": methods, "style": style,
             "targets": targets}
+
+
+@st.composite
+def strat_sequence(draw, tier):
+    """Several tables over one small key space, minimised one after another
+    in one process."""
+    ks = draw(st.sampled_from([FIXED_KEYSPACE, FIXED_KEYSPACE,
+                               {"bits": [0, 1, 2], "const_mask": 0xfffffff8,
+                                "const_key": 0}]))
+    n = draw(st.integers(2, 8 if tier == "quick" else 14))
+    tabs = [draw(gt.table(4, 8, kind=draw(st.sampled_from(
+        ["generality", "generality", "orthogonal"])), ks=ks))
+        for _ in range(n)]
+    return {"tables": tabs,
+            "fns": [draw(st.sampled_from(["oc", "oc", "oc_raw", "table"]))
+                    for _ in range(n)]}
+
+
+def _reset_mutable_defaults(fn):
+    for d in (fn.__defaults__ or ()):
+        if isinstance(d, (dict, set, list)):
+            d.clear()
+
+
+def check_sequence(case):
+    """Each minimisation must be right whatever was minimised before it."""
+    from rig.routing_table import ordered_covering as oc
+    from rig.routing_table import minimise_table
+    # cases are independent of each other: empty anything an earlier case may
+    # have left in a mutable default argument
+    _reset_mutable_defaults(oc.ordered_covering)
+    merged = 0
+    for i, (tab, fn) in enumerate(zip(case["tables"], case["fns"])):
+        original = gt.model_table(tab)
+        table = gt.rig_table(tab)
+        f = {"methods": None} if fn == "table" else fn
+        kind, res = _check_outcome(tab, original, f, table, None,
+                                   "table %d of the sequence (%s)" % (i, fn))
+        if kind == "ok" and "merged" in _classes(original, res):
+            merged += 1
+    return {"nontrivial": merged >= 2,
+            "classes": ["merges>=2"] if merged >= 2 else []}
 
 
 def _methods(names):
@@ -287,6 +339,14 @@ CLAUSES = [
                 "search",
            examples={"quick": 0, "thorough": 0},
            shards={"quick": 1, "thorough": 4}),
+    Clause("sequence", check_sequence, strategy=strat_sequence,
+           rule="2-8/14 tables over one 3-4 bit key space minimised one "
+                "after another in the same process (ordered covering, raw and "
+                "through minimise_table); every result is judged on its own: "
+                "nothing may be remembered from earlier tables; non-trivial = "
+                ">= 2 of the tables were merged",
+           examples={"quick": 1200, "thorough": 20000},
+           shards={"quick": 4, "thorough": 16}),
     Clause("front-end", check_chain, strategy=strat_chain,
            rule="minimise_table / minimise_tables over 1-3 chips with every "
                 "method subset and order, int / dict / None targets; " + RULE,
